@@ -10,7 +10,8 @@ Statement of the property, clause by clause:
   (a) running raises exactly when the argument count differs, memory meets a non-pointer parameter
       or a non-memory value a pointer parameter, or a memory's element type cannot be cast to the
       parameter's; every compatible list runs
-        C10_validate_spec, C10_compatible_pointwise, C10_cast_spec, C10_validate_disabled
+        C10_validate_spec, C10_compatible_pointwise, C10_cast_spec, C10_validate_disabled,
+        C10_error_is_first_mismatch
   (b) the decision is identical for a freshly compiled kernel and one loaded from the cache
         C10_fresh_eq_cached, C10_fresh_eq_cached_signature, C10_zero_parameter_kernel
   (c) validation never traps (no division by zero in isCyclic, no out-of-bounds read)
@@ -78,6 +79,30 @@ theorem C10_compatible_pointwise (ms : List ArgMeta) (args : List Arg) :
 example : Compatible [⟨false, true, .tuple "" (.prim "int") 4, "x"⟩, ⟨true, false, .prim "int", "n"⟩]
     [.mem (.prim "int"), .scalar] := by
   refine ⟨⟨rfl, Or.inr (Or.inr (Or.inl ⟨4, by omega, by simp [Dtype.flatten, repeatList]⟩))⟩, rfl, trivial⟩
+
+/-- Which exception a rejected list gets: the argument-count error, or the error of its FIRST
+    non-fitting argument, with that argument's 1-based position (as in the message): "expects an
+    occa::memory" / "expects a non-occa::memory type" when pointer-ness differs, otherwise "wrong
+    runtime type" (`errKind`). -/
+theorem C10_error_is_first_mismatch (m : KernelMeta) (args : List Arg) (e : VErr)
+    (hi : m.initialized = true) (h : validate m true args = .error e) :
+    (e = .count ∧ args.length ≠ m.arguments.length) ∨
+    (args.length = m.arguments.length ∧
+      ∃ k, ∃ (h1 : k < args.length) (h2 : k < m.arguments.length),
+        (∀ j (g1 : j < args.length) (g2 : j < m.arguments.length), j < k → ArgFits args[j] m.arguments[j]) ∧
+        ¬ ArgFits args[k] m.arguments[k] ∧ e = errKind args[k] m.arguments[k] (k + 1)) := by
+  unfold validate at h
+  simp only [hi, Bool.and_self, Bool.not_true, Bool.false_eq_true, if_false] at h
+  by_cases hl : args.length = m.arguments.length
+  · right
+    simp only [hl, bne_self_eq_false, Bool.false_eq_true, if_false] at h
+    obtain ⟨k, h1, h2, hb, hn, he⟩ := validateArgs_error C10_code_shape.1 args m.arguments 1 e hl h
+    exact ⟨hl, k, h1, h2, hb, hn, by rw [he, Nat.add_comm]⟩
+  · left
+    have hne : (args.length != m.arguments.length) = true := by simpa using hl
+    simp only [hne, if_true] at h
+    simp [throw, throwThe, MonadExceptOf.throw] at h
+    exact ⟨h.symm, hl⟩
 
 /-- Without metadata (a kernel that is not in build.json, non-OKL source) or with the kernel
     property `type_validation: false` every argument list is accepted. -/
